@@ -290,8 +290,8 @@ def make_scripted(fsic, spec, bases=None, extra_attrs=None):
     return type('Scripted', tuple(bases), ns)
 
 
-def new_scripted_instance(cls, span, init):
-    m = cls(span)
+def new_scripted_instance(cls, span, init, **kw):
+    m = cls(span, **kw)
     for nm, vals in init.items():
         m.__dict__['_' + nm][:] = np.array([fval(v) for v in vals], dtype=float)
     attach_ctl(m)
